@@ -201,6 +201,8 @@ class MList(SList):
 
 
 def method(interp, xs, name, args, kwargs):
+    if interp.loop_guards and name in ('append', 'insert', 'pop', 'extend', 'clear'):
+        interp.note_heap_write(xs, None)
     if name == 'append':
         return xs.append(interp, args[0])
     if name == 'insert':
